@@ -145,13 +145,16 @@ pub const OBJ_FAULTS: [Fault; 10] = [
 pub enum PointFault {
     MftBadSig, MftExpiredEe, MftStale, MftPremature, CrlStale, CrlMissing,
     CrlBadSig, CrlWrongHash, NoManifest, MftUndecodable, CrlNotListed,
+    /// The manifest's EE certificate is revoked by the point's own CRL.
+    MftEeRevoked,
 }
 
-pub const POINT_FAULTS: [PointFault; 11] = [
+pub const POINT_FAULTS: [PointFault; 12] = [
     PointFault::MftBadSig, PointFault::MftExpiredEe, PointFault::MftStale,
     PointFault::MftPremature, PointFault::CrlStale, PointFault::CrlMissing,
     PointFault::CrlBadSig, PointFault::CrlWrongHash, PointFault::NoManifest,
     PointFault::MftUndecodable, PointFault::CrlNotListed,
+    PointFault::MftEeRevoked,
 ];
 
 #[derive(Clone, Copy, Debug, Eq, PartialEq)]
@@ -647,6 +650,8 @@ impl<'a> Builder<'a> {
         }
 
         // --- CRL
+        let mft_serial = self.next_serial();
+        if ca.point_fault == Some(PointFault::MftEeRevoked) { revoked.push(mft_serial); }
         let crl_file = format!("{}.crl", ca.name);
         let crl_next = if ca.point_fault == Some(PointFault::CrlStale) { -3600 } else { ca.crl_next_update };
         let crl = TbsCertList::new(
@@ -675,7 +680,6 @@ impl<'a> Builder<'a> {
         }
 
         // --- manifest
-        let mft_serial = self.next_serial();
         let (this_up, next_up) = match ca.point_fault {
             Some(PointFault::MftStale) => (-2 * DAY, -3600),
             Some(PointFault::MftPremature) => (3600, DAY),
